@@ -27,9 +27,11 @@ def _find_loops(fn):
     out = []
     for n in ast.walk(fn):
         if isinstance(n, ast.For) and norm(n.iter) == "self.equations" and isinstance(n.target, ast.Name):
-            has_cont = any(isinstance(x, ast.Continue) for x in ast.walk(n))
-            app = [c for c in calls(n) if isinstance(c.func, ast.Attribute) and c.func.attr == "append" and c.args and is_name(c.args[0], n.target.id)]
-            if has_cont and app:
+            # the list that becomes self.equations afterwards (whether kept equations are appended in an else branch, after a `continue`, ...)
+            kept = {norm(st.value) for st in ast.walk(fn) if isinstance(st, ast.Assign) and norm(st.targets[0]) == "self.equations" and isinstance(st.value, ast.Name)}
+            app = [c for c in calls(n) if isinstance(c.func, ast.Attribute) and c.func.attr == "append" and c.args and is_name(c.args[0], n.target.id)
+                   and norm(c.func.value) in kept]
+            if app:
                 out.append((n, norm(app[0].func.value)))
     return out
 
@@ -73,9 +75,12 @@ def r15_1(ctx, rep):
                                                        for c in calls(x.ast) if not isinstance(x.ast, (ast.FunctionDef, ast.ClassDef)))}
             removal = {x.id for x in cfg.nodes if _is_removal(x)}
             # successful alias registration: true branch of a test calling _make_alias
+            from ..cfg import assume_truth
             for x in cfg.nodes:
-                if x.kind == "assume" and x.taken and any(is_name(c.func, "_make_alias") for c in calls(x.ast)):
-                    removal.add(x.id)
+                if x.kind == "assume":
+                    for c in calls(x.ast):
+                        if is_name(c.func, "_make_alias") and assume_truth(x, norm(c)) is True:
+                            removal.add(x.id)
             # NB: `if v in states: ... elif v in alg_states: ...` without an else is NOT treated as exhaustive: the extraction
             # helper tests a snapshot dictionary, so a variable removed by an earlier equation reaches the implicit else (D25)
             w = cfg.path(body_entry, it.id, avoid=(keep | removal) - {it.id})
@@ -222,7 +227,7 @@ def r15_3(ctx, rep):
                 return True
             if e.id in signed_vars:
                 san = sanitised_after.get(e.id)
-                if san is not None and getattr(at, "lineno", 0) > getattr(san, "end_lineno", 0):
+                if san is not None and _later_sibling(at, san):
                     return False
                 return True
         if isinstance(e, ast.BinOp):
@@ -253,6 +258,23 @@ def r15_3(ctx, rep):
                        "never found there (e.g. an algebraic variable tied to `-input` is no longer recognised as protected)" % (norm(e)[:60], table))
     if n_checked < 8:
         raise MechanismMissing(R, "fewer than 8 uses of the name tables found in the alias pass")
+
+
+def _later_sibling(at, stmt) -> bool:
+    """`at` lies in (or under) a statement that follows `stmt` in stmt's own statement list — decided on the tree, not by line numbers
+    (statements inlined from a helper keep the helper's line numbers)"""
+    holder = getattr(stmt, "_parent", None)
+    if holder is None:
+        return False
+    lst = next((getattr(holder, f) for f in ("body", "orelse", "finalbody") if isinstance(getattr(holder, f, None), list) and stmt in getattr(holder, f)), None)
+    if lst is None:
+        return False
+    cur = at
+    while cur is not None and getattr(cur, "_parent", None) is not holder:
+        cur = getattr(cur, "_parent", None)
+    if cur is None or cur not in lst:
+        return False
+    return lst.index(cur) > lst.index(stmt)
 
 
 def _category_tables(blk):
